@@ -199,6 +199,13 @@ func (s *Server) handleRPCReadSector(stream net.Conn, log *zap.Logger) error {
 		return errorBadRequest("request invalid: %v", err)
 	}
 	prices, token := req.Prices, req.Token
+	// the request validation only requires the end of the range to be segment
+	// aligned. A range that starts inside a segment cannot be proven (proofs
+	// cover whole segments) and sector stores refuse it, so refuse it here,
+	// before the account is charged for it.
+	if req.Offset%rhp4.LeafSize != 0 {
+		return errorBadRequest("read request must be segment aligned")
+	}
 	lap("validate request")
 
 	if exists, err := s.sectors.HasSector(req.Root); err != nil {
